@@ -52,6 +52,51 @@ def build_harness():
         _built = True
 
 
+class HarnessPanic(Exception):
+    def __init__(self, args, message):
+        Exception.__init__(self, message)
+        self.hargs = args
+        self.message = message
+
+
+def report_harness_panic(pid, tier, seed, e):
+    """VIOLATION for a panic of the driver process; the replay file re-runs the same harness command"""
+    d = workdir(pid, "replay")
+    path = os.path.join(d, "panic.ndjson")
+    with open(path, "w") as f:
+        f.write(json.dumps({"ev": "harness_panic", "args": e.hargs, "message": e.message}) + "\n")
+    os.makedirs(EVID, exist_ok=True)
+    with open(os.path.join(EVID, pid + ".json"), "w") as f:
+        level = "model_checking"
+        try:
+            man = json.load(open(os.path.join(VERIF, "MANIFEST.json")))
+            level = [c["level_claimed"] for c in man["checks"] if c["property_id"] == pid][0]
+        except Exception:
+            pass
+        json.dump({"property_id": pid, "tier": tier, "seed": seed, "level": level,
+                   "coverage": {"states": 1, "transitions": 1, "traces_validated_against_impl": 0, "evaluations": 1, "distinct_nontrivial": 1,
+                                "rule": "the driver process panicked while exercising the code under test; no trace could be validated",
+                                "samples": [e.message[:400]]},
+                   "assumptions": [], "wall_s": 0, "violations": 1, "known_findings_hit": {}}, f, indent=1)
+    print(f"VIOLATION property={pid} replay={path}")
+    log("    driver panic:", e.message[:600])
+    return 1
+
+
+def replay_harness_panic(pid, path, seed):
+    """re-runs the recorded harness command: exit 1 if it panics again, 0 otherwise"""
+    e = json.loads(open(path).readline())
+    args = list(e["args"])
+    if "--out" in args:
+        args[args.index("--out") + 1] = os.path.join(workdir(pid), "panic_replay.ndjson")
+    try:
+        harness(args)
+    except HarnessPanic as e2:
+        return report_harness_panic(pid, "quick", seed, e2)
+    log(f"[{pid}] the recorded driver command no longer panics")
+    return 0
+
+
 def harness(args, timeout=3600, check=True, env_extra=None):
     build_harness()
     env = dict(os.environ)
@@ -64,6 +109,13 @@ def harness(args, timeout=3600, check=True, env_extra=None):
                            stderr=subprocess.PIPE, text=True, timeout=timeout, env=env)
     except subprocess.TimeoutExpired:
         raise ToolError(f"harness timeout: {args}")
+    if check and p.returncode == 101:
+        # a Rust panic: either the code under test panicked outside a guarded call, or it returned something the
+        # driver cannot go on with (an Err from a call on well-formed input, a state the scenario relies on not
+        # reached). That is data about the code under test, not a tool failure.
+        msg = [l for l in p.stderr.splitlines() if "panicked at" in l or l.startswith("assertion") or "left:" in l or "right:" in l]
+        log(p.stderr[-2000:])
+        raise HarnessPanic([str(a) for a in args], " | ".join(msg)[-1500:] or p.stderr[-500:])
     if check and p.returncode != 0:
         log(p.stderr[-4000:])
         raise ToolError(f"harness failed rc={p.returncode}: {args}")
